@@ -637,8 +637,19 @@ class Array(metaclass=MetaArray):
                 ll = -1  # same count along the first axis only
         if len(self) == ll:
             cls = self.__class__
-            if cls._is_static_type or is_integer(value):
+            if is_integer(value) or (
+                hasattr(cls._itemtype, "_dtype") and hasattr(value, "dtype")
+            ):  # nothing written, or written in one go
                 cls._to_buffer(self._buffer, self._offset, value)
+            elif cls._is_static_type:
+                # written item by item: undo everything if one of them
+                # cannot be honoured
+                backup = self._buffer.to_bytearray(self._offset, self._size)
+                try:
+                    cls._to_buffer(self._buffer, self._offset, value)
+                except Exception:
+                    self._buffer.update_from_buffer(self._offset, backup)
+                    raise
             else:
                 # items have the space fixed at creation: update them one by
                 # one (each checks that it fits) and undo everything if one
